@@ -12,11 +12,11 @@
             // a declared header that is not a legal header name/value is refused with an error instead of being sent
             to_map_spec(self.structured_headers) is Some && !all_legal(to_map_spec(self.structured_headers)->Some_0) ==> r is Err, // @illegal_declared_header_refused
 //@ closure 0
-|e: MapError| -> (h: HttpError) ensures status_of(h) == 500
+|e: MapError| -> (h: HttpError) ensures is_error_code(status_of(h))
 //@ closure 1
-|e: InvalidHeaderName| -> (h: HttpError) ensures status_of(h) == 500
+|e: InvalidHeaderName| -> (h: HttpError) ensures is_error_code(status_of(h))
 //@ closure 2
-|e: InvalidHeaderValue| -> (h: HttpError) ensures status_of(h) == 500
+|e: InvalidHeaderValue| -> (h: HttpError) ensures is_error_code(status_of(h))
 //@ loop_iter 0 it
 //@ before "let headers" 0
         let ghost base = result;
